@@ -26,7 +26,7 @@ ASSUMPTIONS = ['own interpolation / slerp reference agrees with the documented b
                'shortest-arc SLERP)', 'rounding bound 1e-7 output units for interpolation at own nodes',
                'at an angle difference of exactly +-180 the closed end -180 is accepted (half-open range and '
                'antisymmetry contradict each other there)']
-REQUIRED_OBS = ['unwrapped_angle_tables', 'unwrapped_angle_series', 'antimeridian_perturbations', 'antisymmetry', 'swap_branch_taken', 'self_difference', 'subsample_difference', 'reference_compared',
+REQUIRED_OBS = ['resample_large_time_origin', 'resample_near_stamps', 'unwrapped_angle_tables', 'unwrapped_angle_series', 'antimeridian_perturbations', 'antisymmetry', 'swap_branch_taken', 'self_difference', 'subsample_difference', 'reference_compared',
                 'angle_range', 'resample_nodes', 'resample_slerp', 'perturb_recovered', 'to180_checked',
                 'series_pairs']
 REQUIRED_CLASSES = {'all': ['equal', 'nested', 'rates', 'partial', 'series', 'angles', 'resample']}
@@ -457,10 +457,17 @@ def run_case(case):
         n = int(rng.integers(8, 60))
         dt = rng.uniform(0.05, 1.0)
         t = rng.uniform(-5, 50) + np.arange(n) * dt + rng.uniform(-0.3, 0.3, n) * dt * (rng.random() < 0.5)
+        # any time origin: seconds since start, seconds of week, seconds since 1970
+        t0_ = float(rng.choice([0.0, 0.0, 1e3, 345600.0, 1.7e9]))
+        t = t + t0_
+        bump('resample_large_time_origin', int(t0_ > 0))
         cols = col_subset(rng)
         if rng.random() < 0.5:
             cols = list(rng.permutation(cols))
         st = make_table(rng, t)[cols]
+        # interpolation weights are formed from differences of stamps: rounding eps * |t| / dt times the change of the column over an interval
+        rt_ = 40 * np.finfo(float).eps * np.abs(t).max() / np.diff(t).min()
+        tolc = {c: TOL + rt_ * (np.abs(wrap180(np.diff(st[c].values))).max() if c in ('roll', 'pitch', 'heading') else np.abs(np.diff(st[c].values)).max()) for c in cols}
         # (1) original rows at original times
         r0 = transform.resample_state(st, np.asarray(st.index))
         bump('resample_nodes')
@@ -490,9 +497,31 @@ def run_case(case):
                 if c in ('roll', 'pitch', 'heading'):
                     e = np.abs(wrap180(e))
                     bump('resample_slerp', len(e))
-                if len(e) and e.max() > TOL:
+                if len(e) and e.max() > tolc[c]:
                     i = int(np.argmax(e))
                     fail('resample_value', f'column {c} at t={r1.index[i]}: got {r1[c].values[i]!r}, reference {ref[c].values[i]!r} '
                          f'({"shortest-arc slerp" if c in ("roll", "pitch", "heading") else "linear"})')
+        # (3) as many requested times as rows, each CLOSE to a stamp but not on it (a log regularised onto a grid, two receivers with slightly
+        # different clocks): still interpolation, not the row itself
+        frac = 10 ** rng.uniform(-7, -0.5)
+        dq = np.diff(t).min() * frac * rng.uniform(0.2, 1.0, n) * rng.choice([-1.0, 1.0], n)
+        dq[0], dq[-1] = abs(dq[0]), -abs(dq[-1])
+        tq = t + dq
+        if np.all(np.diff(tq) > 0) and not np.any(tq == t):
+            r2 = transform.resample_state(st, tq)
+            ref2 = own_resample(st, tq)
+            bump('resample_near_stamps')
+            if len(r2) != len(tq) or not np.array_equal(np.asarray(r2.index, float), tq):
+                fail('resample_span', f'{len(tq)} in-span times close to the stamps requested, {len(r2)} rows returned')
+            else:
+                for c in cols:
+                    e = np.abs(r2[c].values.astype(float) - ref2[c].values)
+                    if c in ('roll', 'pitch', 'heading'):
+                        e = np.abs(wrap180(e))
+                    if e.max() > tolc[c]:
+                        i = int(np.argmax(e))
+                        fail('resample_value', f'column {c} requested {dq[i]:.3e} s away from the stamp {t[i]!r}: got {r2[c].values[i]!r}, interpolation gives {ref2[c].values[i]!r} '
+                             f'(the row itself holds {st[c].values[i]!r})')
+                        break
         return dict(violations=out, obs=obs, nontrivial=True, sample=dict(cls=cls, rows=n, columns=cols))
     raise ValueError(cls)
